@@ -133,14 +133,13 @@ func (s *store) Transaction(options keyvalue.TransactionOptions) (keyvalue.Trans
 }
 
 func (t *transaction) prepOp() (keyvalue.OpID, error) {
-	select {
-	case <-t.ctx.Done():
-		return 0, t.ctx.Err()
-	default:
-	}
-
 	op := t.op
 	t.op++
+	select {
+	case <-t.ctx.Done():
+		return op, t.ctx.Err()
+	default:
+	}
 	return op, nil
 }
 
